@@ -5,6 +5,7 @@ import (
 	"encoding/json"
 	"errors"
 	"fmt"
+	"math"
 	"reflect"
 	"strings"
 	"time"
@@ -58,6 +59,13 @@ func c17Cells(tier string) []Cell {
 					}
 				}
 			}
+		}
+	}
+
+	// SkipInterval near the end of the Duration range (appended: the indices of the cells above stay what they were)
+	for iv := range c17HugeIntervals {
+		for _, cb := range []int{1, 3} {
+			cells = append(cells, Cell{ID: c17Cell{Mode: "huge", Interval: iv, Callbacks: cb}.id()})
 		}
 	}
 
@@ -612,7 +620,114 @@ func c17Run(c Cell, env *Env) CellResult {
 		return c17Seq(cc, env)
 	}
 
+	if cc.Mode == "huge" {
+		return c17Huge(cc, env)
+	}
+
 	return c17Conc(cc, env)
+}
+
+// c17HugeIntervals: SkipInterval is a time.Duration; values near the end of its range are legal ("practically never
+// again"). Index = cc.Interval.
+var c17HugeIntervals = []time.Duration{time.Duration(math.MaxInt64), 250 * 365 * 24 * time.Hour, 100 * 365 * 24 * time.Hour}
+
+// c17Huge enumerates every sequence of <=4 (5) operations over {Invalidate, Advance(1ns), Advance(40y)} on an
+// Invalidator whose SkipInterval is huge; the rule is the same as everywhere.
+func c17Huge(cc c17Cell, env *Env) CellResult {
+	res := CellResult{Exhaustive: true, Outcomes: map[string]int{}}
+	iv := c17HugeIntervals[cc.Interval]
+	ops := []string{"Invalidate", "Advance(1ns)", "Advance(40y)"}
+
+	depth := 4
+	if env.Thorough() {
+		depth = 5
+	}
+
+	var seqs [][]int
+
+	cur := [][]int{{}}
+	for l := 0; l < depth; l++ {
+		var next [][]int
+
+		for _, q := range cur {
+			for o := range ops {
+				next = append(next, append(append([]int{}, q...), o))
+			}
+		}
+
+		seqs = append(seqs, next...)
+		cur = next
+	}
+
+	if env.Replay != nil {
+		var seq []int
+		_ = json.Unmarshal(env.Replay.Extra, &seq)
+		seqs = [][]int{seq}
+	}
+
+	seen := map[string]bool{}
+
+	for _, seq := range seqs {
+		h := newC17(cc, false)
+		h.inv.SkipInterval = iv
+
+		var (
+			last     time.Time
+			accepted bool
+			names    []string
+			msg      string
+		)
+
+		for _, o := range seq {
+			names = append(names, ops[o])
+			res.Transitions++
+
+			switch o {
+			case 1:
+				vclock.Advance(time.Nanosecond)
+			case 2:
+				vclock.Advance(40 * 365 * 24 * time.Hour)
+			default:
+				now := vclock.NowQuiet()
+				id, err := h.invalidate()
+				got := h.callbacksOf(id)
+
+				if !accepted || now.Sub(last) >= iv {
+					if err != nil || got != wantCallbacks(cc.Callbacks) {
+						msg = fmt.Sprintf("call %v after the previous accepted one (none before: %v) must be accepted (SkipInterval %v): returned %v, ran [%s]", now.Sub(last), !accepted, iv, err, got)
+					}
+
+					last, accepted = now, true
+				} else if !errors.Is(err, cache.ErrAlreadyInvalidated) || got != "" {
+					msg = fmt.Sprintf("call only %v after the previous accepted one (SkipInterval %v) returned %v and ran [%s], want ErrAlreadyInvalidated and no callbacks", now.Sub(last), iv, err, got)
+				}
+			}
+
+			if msg != "" {
+				break
+			}
+		}
+
+		res.Execs++
+		res.States++
+
+		if msg != "" {
+			sig := "C17 huge-interval " + strings.Fields(msg)[0] + "-" + map[bool]string{true: "accept", false: "reject"}[strings.Contains(msg, "must be accepted")]
+			if !seen[sig] {
+				seen[sig] = true
+				js, _ := json.Marshal(seq)
+				res.Violations = append(res.Violations, Violation{Signature: sig, Detail: msg + "\n  sequence: " + strings.Join(names, "; "), Extra: js})
+			}
+
+			continue
+		}
+
+		res.Outcomes[fmt.Sprintf("huge iv=%v len=%d", iv, len(seq))]++
+	}
+
+	res.MaxDepth = depth
+
+	return res
 }
 
 func init() {
@@ -620,7 +735,7 @@ func init() {
 		ID: "C17", Title: "Invalidator runs all callbacks, at most once per SkipInterval",
 		Cells: c17Cells, Run: c17Run,
 		Rule: "(seq) BFS over sequences of {Invalidate, Invalidate whose last callback panics (caller recovers), Invalidate under an already cancelled context, SkipInterval changed on the live instance, Advance I-1ns, I, I+1ns, 1ns, Callbacks=nil, Callbacks=restored} for SkipInterval {default 15s, 1s} x callbacks {none,1,3} against the model accepted <=> now-lastAccepted >= I; " +
-			"(conc) 2-3 threads x 1-2 Invalidate calls plus a clock thread advancing by I-1ns or I, callbacks are harness functions with a scheduling point inside, all schedules within the bound; the same with one more thread that registers a further callback under the Invalidator's own mutex (an accepted call runs the list as it is when it is accepted): " +
+			"(huge) every sequence of <=4 (5) operations over {Invalidate, Advance 1ns, Advance 40y} with SkipInterval in {MaxInt64 ns, 250y, 100y}; (conc) 2-3 threads x 1-2 Invalidate calls plus a clock thread advancing by I-1ns or I, callbacks are harness functions with a scheduling point inside, all schedules within the bound; the same with one more thread that registers a further callback under the Invalidator's own mutex (an accepted call runs the list as it is when it is accepted): " +
 			"no overlap, every accepted call runs every callback once in order before it returns, rejected calls run none and every rejection is explained by an accepted run less than SkipInterval earlier, number of accepted calls bounded by the elapsed virtual time",
 		Assumptions: []string{
 			"calls are attributed to callbacks through a context value",
